@@ -300,7 +300,9 @@ func diffClasses(orig, mut string) string {
 	return strings.Join(out, "+")
 }
 
-var cipherName = map[int]string{1: "v1-xtea", 2: "v2-salsa", 3: "v3-shuffle"}
+// license id 4 is a version-1 license whose contract signature is 0 (a field value at its boundary); it shares the
+// cipher, hence the name and the structural findings, of version 1
+var cipherName = map[int]string{1: "v1-xtea", 2: "v2-salsa", 3: "v3-shuffle", 4: "v1-xtea"}
 
 // ---- one case ------------------------------------------------------------------------------
 
@@ -618,7 +620,7 @@ func run(c *core.Ctx) {
 	// the collector runs thousands of times per second on 16 goroutines
 	defer debug.SetGCPercent(debug.SetGCPercent(1600))
 	probes = probeChannels(c.Quick())
-	versions := []int{1, 2, 3}
+	versions := []int{1, 2, 3, 4}
 	w := buildWorld(c.Seed, versions)
 	for _, v := range versions {
 		for _, s := range w.specsA {
